@@ -137,7 +137,7 @@ Section Items.
   Qed.
 
   (* Seek(left) + Valid/Next, as one list: the shown items from the first key >= left on *)
-  Lemma range_items_shown m left : view_ok m ->
+  Lemma range_items_shown m (left : bytes) : view_ok m ->
     (left = [] \/ is_prefix prefix left = true) ->
     range_items prefix since now banned rts m left = dW left (shown_items prefix since rts banned m).
   Proof.
@@ -178,3 +178,62 @@ Section Items.
         * rewrite (newer_not_shown a Hv) in Hsh. discriminate.
   Qed.
 End Items.
+
+(* ---------------------------------------------------------------- C25: partition *)
+Lemma no_empty_key_filter p m : no_empty_key m -> no_empty_key (filter p m).
+Proof.
+  unfold no_empty_key. rewrite !Forall_forall. intros H e He. apply filter_In in He. apply H. tauto.
+Qed.
+
+Lemma splits_ok_spec prefix ks : splits_ok prefix ks = true ->
+  sorted_keys ([] :: ks) = true /\ Forall (fun k => k <> []) ks /\ Forall (fun k => is_prefix prefix k = true) ks.
+Proof.
+  unfold splits_ok. intros H. apply andb_true_iff in H. destruct H as [Hs Hf].
+  rewrite forallb_forall in Hf. repeat split.
+  - cbn [sorted_keys]. rewrite Hs. destruct ks as [|k ks']; [reflexivity|].
+    pose proof (lex_nil_le k). destruct (lex_cmp [] k); cbn; congruence.
+  - apply Forall_forall. intros k Hk. specialize (Hf k Hk). destruct k; [discriminate|discriminate].
+  - apply Forall_forall. intros k Hk. specialize (Hf k Hk). destruct k; [discriminate|exact Hf].
+Qed.
+
+Lemma ranges_from_lefts prefix ks : Forall (fun k => is_prefix prefix k = true) ks -> forall start,
+  (start = [] \/ is_prefix prefix start = true) ->
+  Forall (fun rng => fst rng = [] \/ is_prefix prefix (fst rng) = true) (ranges_from start ks).
+Proof.
+  induction 1 as [|k ks Hk _ IH]; intros start Hs; cbn [ranges_from]; constructor; auto.
+Qed.
+
+Section Pass.
+  Variable prefix : bytes.
+  Variable since now : N.
+  Variable banned : bytes -> bool.
+  Variable kd : ktl_kind.
+  Variable choose : entry -> bool.
+  Let ktl := key_to_list kd now.
+
+  Definition pass_k (rts : N) (m : src) (rng : bytes * bytes) : list (bytes * list entry) :=
+    range_k ktl choose (shown_items prefix since rts banned m) rng.
+
+  Lemma produce_range_k rts m (rng : bytes * bytes) : view_ok m ->
+    (fst rng = [] \/ is_prefix prefix (fst rng) = true) ->
+    produce_range prefix since now banned kd choose rts m rng = map snd (pass_k rts m rng).
+  Proof.
+    intros Hm Hl. unfold produce_range. cbv zeta. rewrite (range_items_shown prefix since now banned rts m (fst rng) Hm Hl).
+    apply (produce_is_produce_k ktl choose). intros key its. apply ktl_rest.
+  Qed.
+
+  Theorem stream_pass_partition rts m ks :
+    view_ok m -> no_empty_key m -> splits_ok prefix ks = true ->
+    stream_pass prefix since now banned kd choose rts m ks
+    = produce_range prefix since now banned kd choose rts m ([], []).
+  Proof.
+    intros Hm Hne Hok. destruct (splits_ok_spec _ _ Hok) as (Hs & Hnn & Hp).
+    unfold stream_pass, ranges.
+    rewrite (produce_range_k rts m ([], []) Hm (or_introl eq_refl)).
+    pose proof (ranges_from_lefts prefix ks Hp [] (or_introl eq_refl)) as Hl.
+    rewrite (map_ext_in _ (fun rng => map snd (pass_k rts m rng))).
+    2:{ intros rng Hin. rewrite Forall_forall in Hl. apply produce_range_k; auto. }
+    rewrite <- (map_map (pass_k rts m) (map snd)). rewrite <- concat_map. f_equal.
+    unfold pass_k. apply ranges_concat; auto. now apply no_empty_key_filter.
+  Qed.
+End Pass.
